@@ -26,6 +26,17 @@ def plainPath (f : Str) : Path := pathFrom (splitLevels f) 0
 def sharePath (f : Str) : Path := pathFrom (splitLevels f) 2
 /-- share group of a shared filter -/
 def shareGroup (f : Str) : Str := (isolate (splitLevels f) 1).1
+/-- a shared filter without a topic part (`$share`, `$share/group`): `Unsubscribe` leaves the index alone -/
+def shareBare (f : Str) : Bool := shareKey f && !(isolate (splitLevels f) 1).2
+
+theorem shareBare_shareKey {f : Str} (h : shareBare f = true) : shareKey f = true := by
+  unfold shareBare at h
+  cases hs : shareKey f
+  · rw [hs] at h; cases h
+  · rfl
+
+theorem shareBare_of_plain {f : Str} (h : shareKey f = false) : shareBare f = false := by
+  unfold shareBare; rw [h]; rfl
 
 /-! ### what each operation does to a lookup -/
 
@@ -98,16 +109,23 @@ theorem sharedAt_subscribe (x : Index) (c : Str) (s : Sub) (q : Path) (g c' : St
       rw [hold _ (deadNone_shared g c')]
     · simp [hq]
 
-/-- `Unsubscribe`: nothing, or a point update of one particle (followed by `trim`) -/
-theorem unsubscribe_look (x : Index) (hpc : PrefixClosed x.nodes) (f c : Str) :
+/-- `Unsubscribe` of a shared filter without a topic part: nothing -/
+theorem unsubscribe_bare (x : Index) (f c : Str) (hb : shareBare f = true) : unsubscribe x f c = (x, false) := by
+  unfold shareBare shareKey at hb
+  unfold unsubscribe
+  simp only [hb, if_true]
+
+/-- `Unsubscribe` (of anything else): nothing, or a point update of one particle (followed by `trim`) -/
+theorem unsubscribe_look (x : Index) (hpc : PrefixClosed x.nodes) (f c : Str) (hb : shareBare f = false) :
     ((unsubscribe x f c).1 = x ∧
       getNode x.nodes (if shareKey f = true then sharePath f else plainPath f) = none) ∨
     ∃ n : Node, getNode x.nodes (if shareKey f = true then sharePath f else plainPath f) = some n ∧
       PointUpd x.nodes (unsubscribe x f c).1.nodes (if shareKey f = true then sharePath f else plainPath f)
         (if shareKey f = true then { n with shared := sharedDel n.shared (shareGroup f) c }
          else { n with subs := assocDel n.subs c }) := by
+  unfold shareBare shareKey at hb
   unfold unsubscribe shareKey sharePath plainPath shareGroup
-  simp only [seek_eq_getNode _ hpc]
+  simp only [seek_eq_getNode _ hpc, hb, Bool.false_eq_true, if_false]
   by_cases hs : isShare (isolate (splitLevels f) 0).1 = true
   · simp only [hs, if_true]
     cases hg : getNode x.nodes (pathFrom (splitLevels f) 2) with
@@ -130,7 +148,12 @@ theorem plainAt_unsubscribe (x : Index) (hpc : PrefixClosed x.nodes) (f c : Str)
     plainAt (unsubscribe x f c).1 q c' =
       if shareKey f = false ∧ q = plainPath f ∧ c' = c then none else plainAt x q c' := by
   unfold plainAt
-  rcases unsubscribe_look x hpc f c with ⟨he, hg⟩ | ⟨n, hg, hu⟩
+  cases hb : shareBare f with
+  | true =>
+    rw [unsubscribe_bare x f c hb]
+    simp [shareBare_shareKey hb]
+  | false =>
+  rcases unsubscribe_look x hpc f c hb with ⟨he, hg⟩ | ⟨n, hg, hu⟩
   · rw [he]
     split
     · rename_i h
@@ -153,9 +176,16 @@ theorem plainAt_unsubscribe (x : Index) (hpc : PrefixClosed x.nodes) (f c : Str)
 
 theorem sharedAt_unsubscribe (x : Index) (hpc : PrefixClosed x.nodes) (f c : Str) (q : Path) (g c' : Str) :
     sharedAt (unsubscribe x f c).1 q g c' =
-      if shareKey f = true ∧ q = sharePath f ∧ g = shareGroup f ∧ c' = c then none else sharedAt x q g c' := by
+      if (shareKey f = true ∧ shareBare f = false) ∧ q = sharePath f ∧ g = shareGroup f ∧ c' = c then none
+      else sharedAt x q g c' := by
   unfold sharedAt
-  rcases unsubscribe_look x hpc f c with ⟨he, hg⟩ | ⟨n, hg, hu⟩
+  cases hb : shareBare f with
+  | true =>
+    rw [unsubscribe_bare x f c hb]
+    simp
+  | false =>
+  simp only [and_true]
+  rcases unsubscribe_look x hpc f c hb with ⟨he, hg⟩ | ⟨n, hg, hu⟩
   · rw [he]
     split
     · rename_i h
@@ -434,6 +464,8 @@ theorem allNodeOK_applyOp (x : Index) (h : AllNodeOK x.nodes) (op : IOp) : AllNo
     simp only [applyOp, unsubscribe]
     split
     · exact h
+    split
+    · exact h
     · rename_i n hn
       have hno := h n (getNode_mem (seek_some hn))
       split
@@ -584,14 +616,14 @@ theorem Entry.subscribe_self (x : Index) (c : Str) (s : Sub) : Entry (subscribe 
 
 /-- an entry after `Unsubscribe f c` was there before, and is not client `c`'s entry for `f` -/
 theorem Entry.of_unsubscribe {x : Index} (hx : IdxOK x) {f c c' f' : Str} (h : Entry (unsubscribe x f c).1 c' f') :
-    Entry x c' f' ∧ ¬ (c' = c ∧ f' = f) := by
+    Entry x c' f' ∧ ¬ (c' = c ∧ f' = f ∧ shareBare f = false) := by
   rcases h with ⟨q, sub, h, e⟩ | ⟨q, g, sub, h, e⟩
   · rw [plainAt_unsubscribe x hx.pc] at h
     split at h
     · cases h
     · rename_i hn
       refine ⟨Or.inl ⟨q, sub, h, e⟩, ?_⟩
-      rintro ⟨rfl, rfl⟩
+      rintro ⟨rfl, rfl, _⟩
       obtain ⟨h1, h2⟩ := hx.pos.plain q c' sub h
       rw [e] at h1 h2
       exact hn ⟨h1, h2.symm, rfl⟩
@@ -600,10 +632,10 @@ theorem Entry.of_unsubscribe {x : Index} (hx : IdxOK x) {f c c' f' : Str} (h : E
     · cases h
     · rename_i hn
       refine ⟨Or.inr ⟨q, g, sub, h, e⟩, ?_⟩
-      rintro ⟨rfl, rfl⟩
+      rintro ⟨rfl, rfl, hb⟩
       obtain ⟨h1, h2, h3⟩ := hx.pos.shared q g c' sub h
       rw [e] at h1 h2 h3
-      exact hn ⟨h1, h2.symm, h3.symm, rfl⟩
+      exact hn ⟨⟨h1, hb⟩, h2.symm, h3.symm, rfl⟩
 
 /-! ### the entries as a list -/
 
